@@ -724,6 +724,10 @@ func c17Case(rt *rapid.T, rec *vh.Recorder) (*c17Mismatch, *c17CaseFile) {
 			classes["excluded:"+f] = true
 			legs = existing
 			sh = c17ShapeOf(cur, legs)
+			if c17ShapeExcluded(kind, sh) != "" {
+				legs = nil
+				sh = c17ShapeOf(cur, legs)
+			}
 		}
 		op := c17Op{Kind: kind, Path: verifJRenderPath(legs)}
 		if op.hasVal() {
